@@ -4,16 +4,13 @@
    Everything is a statement about the model's functions at the real instance
    and the generic matrix operations of Mat.v. *)
 From Coq Require Import Reals ZArith List.
-From Manif Require Import Scalar Mat Group RInst Generic.
+From Manif Require Import Scalar Mat Group RInst Generic LieSpec.
 Import ListNotations.
 Local Open Scope R_scope.
 
 (* sum_i t_i * B_i over the first dof indices, as n x n matrices *)
 Definition lincomb (dof n : nat) (t : list R) (B : nat -> list (list R)) : list (list R) :=
   fold_right (fun i acc => @madd RS (@mscale RS (@vnth RS t i) (B i)) acc) (@mzero RS n n) (seq 0 dof).
-
-Definition commutator (A B : list (list R)) : list (list R) :=
-  @msub RS (@mmul RS A B) (@mmul RS B A).
 
 Definition int_range (i : Z) : Prop := (-2147483648 <= i < 2147483648)%Z.   (* the C++ `int` *)
 
